@@ -62,6 +62,7 @@ var scenarioByName = map[string]func(name string) *Scenario{}
 var freeParts = map[string]func(c *rep.Ctx){}
 
 type explorer struct {
+	sampled  bool
 	visited  map[uint64]int // E2: state key -> smallest cost at which it was expanded
 	pruned   int64
 	noShard  bool // explore every level-1 subtree in this process (the caller shards over scenarios instead)
@@ -172,6 +173,10 @@ func (e *explorer) explore(sc *Scenario, policy int) {
 						e.states[p.Key] = struct{}{}
 					}
 				}
+			}
+			if !e.sampled && c.Shard == 0 && len(out.Points) > 0 {
+				e.sampled = true
+				c.Sample(map[string]any{"scenario": sc.Name, "policy": policy, "one_explored_execution": traceString(&out), "ended": out.End(), "observed": ex.Outcome()})
 			}
 			e.outcomes[sc.Name+"|"+out.End()+"|"+ex.Outcome()]++
 			c.Inc("end_" + out.End())
